@@ -492,9 +492,9 @@ def views(ctx, m):
 
 
 # ---------------------------------------------------------------------------------- never crossed
-def never_crossed(ctx, m):
+def never_crossed(ctx, m, rule="never-crossed"):
     matchers = {f.path: side for (f, side, _c) in m.matchers()}
-    ctx.check(len(matchers) >= 2, "never-crossed", "matchers", "-", "%d matching loops found (passive sides %s)" % (len(matchers), sorted(matchers.values())))
+    ctx.check(len(matchers) >= 2, rule, "matchers", "-", "%d matching loops found (passive sides %s)" % (len(matchers), sorted(matchers.values())))
     roots = [m.book_fn("place_order"), m.book_fn("modify_order")]
     live = [f for f in m.w.reachable(roots) if f.crate.name == "bourse_book"]
     n = 0
@@ -538,11 +538,11 @@ def never_crossed(ctx, m):
             reach = q.cfg.reach_from(0, cut_edges=off_edges, cut_blocks=cut)
             guarded = all(any(a[0] == "bool" and a[2] is True and fld(a[1], m.f_trading) for a in x.guards) for x in mcalls)
             ok = bool(mcalls) and c.b not in reach and guarded and not wrong
-            ctx.check(ok, "never-crossed", "%s|%s" % (f.short(), side), c.loc(),
+            ctx.check(ok, rule, "%s|%s" % (f.short(), side), c.loc(),
                       "every path to the %s-side insertion either saw trading == false or ran the %s-side matching loop first" % (side, opposite(side)),
                       "a path reaches the %s-side insertion with trading on and without running the %s-side matching loop%s" % (
                           side, opposite(side), " (it runs the same-side loop instead)" if wrong else ""))
-    ctx.check(n >= 4, "never-crossed", "census", "-", "%d live insertion sites (reachable from place_order / modify_order)" % n)
+    ctx.check(n >= 4, rule, "census", "-", "%d live insertion sites (reachable from place_order / modify_order)" % n)
     ctx.note("that the loop only exits when the limit no longer admits the opposite best price is premise K4 of C01")
 
 
